@@ -9,8 +9,9 @@ ROOT = os.path.dirname(os.path.dirname(os.path.abspath(__file__)))
 sys.path.insert(0, ROOT)
 
 SUITES = {
-    'tcpcl': ['tcpcl_types', 'tcpcl_models', 'tcpcl_models2', 'tcpcl_messenger', 'tcpcl_send', 'tcpcl_recv',
-              'tcpcl_handler', 'tcpcl_handler2', 'tcpcl_handler3', 'tcpcl_msg', 'tcpcl_pump'],
+    'tcpcl': ['tcpcl_types', 'tcpcl_models', 'tcpcl_models2', 'tcpcl_models3', 'tcpcl_messenger', 'tcpcl_send',
+              'tcpcl_recv', 'tcpcl_handler', 'tcpcl_handler2', 'tcpcl_handler3', 'tcpcl_pump', 'tcpcl_msg',
+              'tcpcl_agent'],
     'bp': ['bp_types', 'bp_models', 'bp_blocks', 'bp_agent', 'bp_apps'],
     'udpcl': ['udpcl_types', 'udpcl_agent'],
     'btpu': ['btpu_types', 'btpu_agent'],
@@ -46,6 +47,23 @@ def _run_unit(job):
     return out
 
 
+def _child(job, conn):
+    try:
+        r = _run_unit(job)
+    except BaseException as err:  # noqa
+        r = _dead_unit(job, 'crash in worker: %r' % (err,))
+    conn.send(r)
+    conn.close()
+
+
+def _dead_unit(job, why, wall=0.0):
+    suite, key, ci = job[0], job[1], job[2]
+    return {'unit': '%s#%d' % (key, ci), 'function': key, 'file': None, 'lines': None, 'src_hash': None, 'stmts': 0,
+            'paths': 0, 'queries': 0, 'solver_s': 0.0, 'wall_s': wall, 'unsupported': None, 'error': None,
+            'timeout': why, 'covers': {}, 'callees_by_contract': [], 'soft_skips': [], 'notes': [], 'obligations': [],
+            'suite': suite, 'trusted': False}
+
+
 def units_for(suite, props=None, keys=None):
     spec = load_spec(suite)
     jobs = []
@@ -78,7 +96,7 @@ def units_for(suite, props=None, keys=None):
     return spec, jobs, trusted
 
 
-def run(suites, props=None, keys=None, timeout_ms=10000, procs=None, src=None, quiet=False):
+def run(suites, props=None, keys=None, timeout_ms=10000, procs=None, src=None, quiet=False, unit_limit_s=None):
     t0 = time.time()
     all_jobs = []
     trusted = []
@@ -89,19 +107,51 @@ def run(suites, props=None, keys=None, timeout_ms=10000, procs=None, src=None, q
         all_jobs.extend(jobs)
         trusted.extend(tr)
     jobs = [(s, k, ci, timeout_ms, src) for (s, k, ci) in all_jobs]
-    procs = procs or min(16, max(1, len(jobs)))
+    procs = procs or 16
     results = []
-    if jobs:
-        ctx = mp.get_context('fork')
-        with ctx.Pool(procs, maxtasksperchild=4) as pool:
-            for r in pool.imap_unordered(_run_unit, jobs):
-                results.append(r)
-                if not quiet:
-                    bad = [o for o in r['obligations'] if o['status'] != 'discharged']
-                    st = 'ok' if not bad and not r['unsupported'] and not r['error'] else 'ATTN'
-                    print('  [%s] %-70s %3d obligations %5.1fs %s' % (
-                        st, r['unit'][-70:], len(r['obligations']), r['wall_s'],
-                        (r['unsupported'] or r['error'] or '')[:100]), flush=True)
+    unit_limit = unit_limit_s or max(120, 40 * timeout_ms / 1000.0)
+
+    def report(r):
+        results.append(r)
+        if not quiet:
+            bad = [o for o in r['obligations'] if o['status'] != 'discharged']
+            st = 'ok' if not bad and not r['unsupported'] and not r['error'] and not r.get('timeout') else 'ATTN'
+            print('  [%s] %-70s %3d obligations %5.1fs %s' % (
+                st, r['unit'][-70:], len(r['obligations']), r['wall_s'],
+                (r['unsupported'] or r['error'] or r.get('timeout') or '')[:100]), flush=True)
+
+    # own process management: a unit whose solver spins past every timeout is killed and
+    # reported as undecided (never as a verdict)
+    ctx = mp.get_context('fork')
+    pending = list(jobs)
+    running = []   # (proc, conn, job, t_start)
+    while pending or running:
+        while pending and len(running) < procs:
+            job = pending.pop(0)
+            parent, child = ctx.Pipe(duplex=False)
+            p = ctx.Process(target=_child, args=(job, child), daemon=True)
+            p.start()
+            child.close()
+            running.append((p, parent, job, time.time()))
+        still = []
+        for p, conn, job, t_start in running:
+            if conn.poll(0.02):
+                try:
+                    r = conn.recv()
+                except EOFError:
+                    r = _dead_unit(job, 'worker died')
+                p.join(5)
+                report(r)
+            elif not p.is_alive():
+                report(_dead_unit(job, 'worker exited without a result'))
+            elif time.time() - t_start > unit_limit:
+                p.kill()
+                p.join(5)
+                report(_dead_unit(job, 'unit exceeded %ds wall (solver not responding to its timeout)' % unit_limit,
+                                  wall=time.time() - t_start))
+            else:
+                still.append((p, conn, job, t_start))
+        running = still
     results.sort(key=lambda r: r['unit'])
     return {'results': results, 'trusted': trusted, 'wall_s': time.time() - t0, 'specs': specs}
 
